@@ -4,7 +4,6 @@ import importlib, json, os, sys
 sys.path.insert(0, "/verif")
 props = [json.loads(l) for l in open("/verif/properties.jsonl")]
 NA = {
- "C16": "clone/bind/checkpoint: key disjointness rests on hash values and ordering on run-time scheduling; no structural necessary condition whose breakage is the property rather than a crash",
  "C20": "array indexing: slice/index arithmetic over run-time shapes and chunks; no sound static bound in reach",
  "C21": "item assignment: index normalisation and block intersection are numeric over run-time values",
  "C23": "chunk normalisation/rechunk: sums and byte limits are arithmetic over run-time values",
